@@ -23,7 +23,7 @@ A property plugin (harness/props/cNN.py) provides:
   finding_key(case, impl, why)   stable slug identifying the defect (for known_findings.txt)
   tags(case, impl)            optional list of histogram tags
 """
-import os, sys, json, time, random, subprocess, hashlib, re, fcntl, importlib, traceback, collections
+import os, sys, json, time, random, subprocess, hashlib, re, fcntl, importlib, traceback, collections, copy
 
 ROOT = os.path.dirname(os.path.dirname(os.path.abspath(__file__)))
 REPO = os.environ.get('VERIF_REPO', '/repo')
@@ -358,13 +358,38 @@ def _check(prop, tier, replay):
     corpus_dir = os.path.join(ROOT, 'corpus', prop)
     if replay:
         r = json.load(open(replay))
-        cases.append(r.get('case'))
+        # a failure found on a REPEATED case (see below) needs its earlier runs in this process to reproduce
+        cases.extend([r.get('case')] * (1 + int(r.get('runs_before', 0))))
     else:
         if os.path.isdir(corpus_dir):
             for f in sorted(os.listdir(corpus_dir)):
                 if f.endswith('.json'):
                     cases.append(json.load(open(os.path.join(corpus_dir, f)))['case'])
         cases.extend(P.cases(rng, eff_tier))
+        # STATE CARRIED BETWEEN USES IN ONE PROCESS (caches keyed too coarsely, class-level scratch state, objects handed
+        # out twice): every 6th case is run again right after its first run, and a sample of the cases once more at the end
+        # of the stream.  A repetition is an ordinary case - same input, judged by the same oracle and the same model
+        # comparison - so nothing more is demanded of the library than the property says; only its history differs.
+        if not os.environ.get('VERIF_NO_REPEAT') and getattr(P, 'REPEATABLE', True):
+            n0 = len(cases)
+            out = []
+            for i, c in enumerate(cases):
+                out.append(c)
+                if i % 6 == 5:
+                    out.append(copy.deepcopy(c))
+            step = max(1, n0 // 150)
+            out.extend(copy.deepcopy(c) for c in cases[::step][:150])
+            cases = out
+
+    runs_before = {}          # index -> how often the same case ran earlier in this process
+    _seen_case = collections.Counter()
+    for i, c in enumerate(cases):
+        try:
+            k = hashlib.sha1(jdump(c).encode()).hexdigest()
+        except Exception:     # noqa
+            continue
+        runs_before[i] = _seen_case[k]
+        _seen_case[k] += 1
 
     impls, lines, idx = [], [], []
     harness_exc = []          # exceptions inside the plugin on single cases: they must not mask violations elsewhere
@@ -404,7 +429,7 @@ def _check(prop, tier, replay):
             harness_exc.append((i, 'oracle', traceback.format_exc()[-1500:]))
             continue
         if why:
-            failures.append(('impl-violates-property', c, impl, why, answers.get(i)))
+            failures.append(('impl-violates-property', c, impl, why, answers.get(i), runs_before.get(i, 0)))
             continue
         if i in answers:
             compared += 1
@@ -415,7 +440,7 @@ def _check(prop, tier, replay):
             io = P.impl_obs(impl)
             if mo != io:
                 failures.append(('model-impl-disagreement', c, impl,
-                                 f'model {jdump(mo)[:300]} != impl {jdump(io)[:300]}', answers[i]))
+                                 f'model {jdump(mo)[:300]} != impl {jdump(io)[:300]}', answers[i], runs_before.get(i, 0)))
 
     # ---------- 4. shrink, classify, verdict ---------------------------------------------------
     def still_fails(kind, c):
@@ -457,7 +482,7 @@ def _check(prop, tier, replay):
     # impl violations first: they carry a failing input
     failures.sort(key=lambda f: 0 if f[0] == 'impl-violates-property' else 1)
     processed = 0
-    for n, (kind, c, impl, why, ans) in enumerate(failures):
+    for n, (kind, c, impl, why, ans, nbefore) in enumerate(failures):
         # every failure is looked at (a listed known finding that fails on thousands of cases must not crowd out a
         # different violation further down the stream); only the first of each key is shrunk and reported, and at most
         # 200 distinct ones are processed
@@ -481,7 +506,7 @@ def _check(prop, tier, replay):
                 continue
         path = os.path.join('replays', prop, f'{seed}-{len(violations)}.json')
         json.dump({'property': prop, 'kind': kind, 'why': why, 'case': c, 'impl_output': impl, 'finding_key': key,
-                   'model_answer': ans, 'seed': seed, 'tier': tier, 'repo_head': repo_head(),
+                   'model_answer': ans, 'seed': seed, 'tier': tier, 'repo_head': repo_head(), 'runs_before': nbefore,
                    'how_to_replay': f'/venv/bin/python harness/check.py {prop} --replay {path}'},
                   open(os.path.join(ROOT, path), 'w'), indent=1, default=str)
         violations.append((kind, path, why, key))
